@@ -304,6 +304,25 @@ structure Table where
 
 def Table.core (t : Table) : Core := ⟨t.orders, t.naxes, t.coeffs, t.knots⟩
 
+/-- Well-formedness of a table handed to the writer — the tables of the modelled subset, for which the round trip
+    `readCoreBytes (encode t) = some t.core` is proved (`PsV.C08.roundtrip`, `Proofs/FitsRoundTrip.lean`):
+    1 ≤ ndim ≤ 999 (FITS: `NAXIS` ≤ 999; keeps `NAXISn`/`ORDERn` within 8 columns); one order (`int`, non-negative),
+    one axis length and one knot vector (`long` many) per dimension; per dimension `nknots ≥ 2·order+2` and
+    `naxes = nknots − order − 1` (what the reader insists on); as many coefficients (binary32 patterns) as the axes
+    say; knots binary64 patterns, finite and non-decreasing; extents, if present, 2·ndim values; extra cards
+    (`PERIODn`, aux keys) 80 columns wide and not called `END`, `ORDER` (the reader takes a bare `ORDER` for the order
+    of every dimension) or `EXTNAME` (the reader looks `KNOTSn` up by `EXTNAME`, from the primary HDU on). -/
+def Table.wf (t : Table) : Bool :=
+  let nd := t.orders.length
+  decide (0 < nd) && decide (nd ≤ 999) && t.naxes.length == nd && t.knots.length == nd
+  && t.orders.all (fun o => decide (o < 2 ^ 31)) && t.naxes.all (fun a => decide (a < 2 ^ 63))
+  && t.coeffs.length == prod t.naxes && t.coeffs.all (fun c => decide (c < 2 ^ 32))
+  && (List.range nd).all (fun i => countsOk (t.orders.getD i 0) (t.naxes.getD i 0) (t.knots.getD i []).length)
+  && t.knots.all (fun k => k.all (fun w => decide (w < 2 ^ 64)) && decide (k.length < 2 ^ 63) && knotsValid k)
+  && (match t.extents with | none => true | some e => e.length == 2 * nd)
+  && t.extraCards.all (fun c => c.length == 80 && card_key c != keyOf "END" && card_key c != keyOf "ORDER"
+        && card_key c != keyOf "EXTNAME")
+
 def beBytes (k w : Nat) : Bytes := (List.range k).map fun j => (w / 256 ^ (k - 1 - j)) % 256
 
 def padBlock (fill : Nat) (b : Bytes) : Bytes := b ++ List.replicate ((2880 - b.length % 2880) % 2880) fill
